@@ -440,7 +440,7 @@ QP_SEARCH = {
 #   (NQ, MaxOps, BlockSizes, GateArities, BarrierMode, number of walks)
 QP_SIM = [(7, 9, '{2, 3, 4}', '{1, 2, 3}', 'none', 500), (6, 8, '{2, 3}', '{1, 2, 3}', 'any', 500)]     # about one walk per second
 # how many of the circuits found are fed back (scripts) per mechanism and source, quick / thorough
-SCRIPTS_PER_MECH = (40, 400)
+SCRIPTS_PER_MECH = (40, 120)
 PINS = list(range(8))          # values of the Bin.id counter tried on every script (set iteration order depends on id mod 8)
 
 
@@ -757,7 +757,7 @@ def run(ctx: Ctx) -> Outcome:
             scripts.append((bs, n, json.loads(cj)))
             sinfo.append({'src': 'script', 'from': found[(bs, n, cj)]['src']})
         nbase = len(scripts)
-        for i in rng.sample(range(nbase), min(nbase, 80 if ctx.quick else 1500)):
+        for i in rng.sample(range(nbase), min(nbase, 80 if ctx.quick else 600)):
             bs, n, circ = scripts[i]
             rec = embed(recipe_of(n, circ), rng)
             scripts.append((bs, rec['nq'], circ_of(rec)))
